@@ -50,6 +50,13 @@ CHECKS = {
         technique="deterministic simulation: simulated file system under the real HDF5 stack, seeded operation histories, ENOSPC/EIO injection at the k-th low-level call, reference = path->{attr: value} model",
         design="4/C64",
     ),
+    "C29": dict(
+        category="exploration",
+        text="The device is run as a probabilistic automaton whose every categorical draw is owned by the simulator: each choice(p=...) (numpy Generator subclass or wrapped jax.random.choice) offers a distribution, and the simulator decides the returned indices under sampling or adversarial policies (always the mode, always the rarest state, alternating). Oracle (i): every offered distribution, pushed through the per-shot value map of some requested measurement, equals the distribution given by an independent reference simulator, and every measurement is fed by offers whose sizes add up to its shots. Oracle (ii): what is returned to the user is the documented per-bin aggregation (samples, counts incl. all_outcomes, mean, population variance, frequencies) of exactly the indices the simulator returned. This replaces the goodness-of-fit test suggested by the property with an exact refinement check: no significance threshold, no false-alarm rate.",
+        note="Trusted: the independent numpy reference simulator (validated against analytic execution); PennyLane's single-sample post-processing for the eigenvalue of one basis index (pinned jointly with the offered distribution by oracle i). Circuits touch every wire in order so no device-specific wire layout is baked in. JAX results are float32 (tolerance 5e-6). If an implementation stops drawing through choice(p=...), the evidence shows no_offers and nothing is decided.",
+        technique="deterministic simulation: scripted RNG seam (device as probabilistic automaton), adversarial outcome scheduling, refinement against an independent reference simulator",
+        design="4/C29",
+    ),
 }
 
 NA = {}
